@@ -558,12 +558,38 @@ def gen_cases(rng, tier, budget):
                     add(case("disp", [p, 1, 1 if p == 0x57 else 0, 1], fr[:2] + be16(L) + fr[4:]))
                 for k in range(len(fr)):
                     add(case("disp", [p, 1, 0, 0], fr[:k]))
-    # PPP-IPv6 (0x0057): well-formed IPv6 datagrams (exactly one admissible outcome: handed to the host when IPv6CP is open)
-    # and not-IPv6 payloads around the 40-byte header / version nibble (may be dropped by a stricter dispatcher)
-    for n in (39, 40, 41, 60, 200):
-        for first in (0x60, 0x6f, 0x40, 0x00, 0x70):
-            for (net, v6, fsm) in ((1, 1, 1), (0, 1, 1), (1, 0, 1), (1, 0, 0), (2, 1, 2)):
-                add(case("disp", [0x57, net, v6, fsm], bytes([first]) + rb(rng, n - 1)))
+    # DETERMINISTIC block (no rng): the class "a host callback receives a short payload".
+    # (a) PPP-IPv6 (0x0057) in every dispatcher state, in particular wherever the callback is reachable (network / open phase or
+    #     no PhaseFn, IPv6CP installed and Opened): every payload length 0..41, 60, 200 x version nibble {0,4,6,15} x
+    #     {prefix of a well-formed IPv6/UDP/DHCPv6 datagram, filler bytes}.  Well-formed datagrams (len >= 40, nibble 6) have
+    #     exactly one admissible outcome; the others may be dropped by a stricter dispatcher but must never crash it.
+    wf6 = (b"\x60\x00\x00\x00" + be16(160) + b"\x11\x40" + b"\xfe\x80" + bytes(14) + b"\xff\x02" + bytes(11) + b"\x01\x00\x02"
+           + be16(546) + be16(547) + be16(160) + b"\x00\x00" + b"\x01\x0a\x0b\x0c" + be16(1) + be16(10) + bytes(range(10)) + bytes(range(134)))
+    assert len(wf6) == 200
+    v6states = [(1, 1, 1), (2, 1, 1), (3, 1, 1), (1, 1, 2), (2, 1, 2), (0, 1, 1), (1, 0, 1), (1, 0, 0), (3, 0, 0)]
+    for n in list(range(0, 42)) + [60, 200]:
+        for nib in (0, 4, 6, 15):
+            for body in (wf6[:n], bytes((7 * i + 3) & 0xff for i in range(n))):
+                pl = (bytes([(nib << 4) | (body[0] & 0x0f)]) + body[1:]) if n else b""
+                for st in v6states:
+                    add(case("disp", [0x57] + list(st), pl))
+                add(case("fzsess", [0x57, 9], pl))                 # the session's real handleIPv6Packet, IPv6CP Opened
+                add(case("l2ppp", [1, 1, 1], b"\x00\x57" + pl))
+    # (b) every other protocol the dispatcher hands to a host callback: IPv4 0x0021 and an unassigned protocol (Protocol-Reject
+    #     callback gets the whole payload), PAP, CHAP, LCP Echo-Request / Echo-Reply / Protocol-Reject, with every data length
+    #     0..12 and the declared length equal to, below and above what is present
+    for proto, codes in ((0x0021, (1,)), (0x1234, (1,)), (0xc023, (1, 2, 3)), (0xc223, (1, 2, 3, 4)), (0xc021, (8, 9, 10))):
+        for code in codes:
+            for n in range(0, 13):
+                data = bytes((5 * i + 1) & 0xff for i in range(n))
+                for decl in sorted({4 + n, 4, max(0, 3 + n), 5 + n, 0}):
+                    fr = bytes([code, 7]) + be16(decl) + data
+                    for st in ((1, 0, 0), (0, 0, 1), (2, 1, 2)):
+                        add(case("disp", [proto] + list(st), fr))
+                    add(case("fzsess", [proto, 3], fr))
+                    add(case("fzsess", [proto, 9], fr))
+                for k in range(0, 4):                               # shorter than the 4-byte header
+                    add(case("disp", [proto, 1, 0, 1], (bytes([code, 7]) + be16(4 + n))[:k]))
     for s in short_strings(tier, True):
         add(case("l2ppp", [1, 0, 0], s))
         add(case("l2ppp", [1, 0, 1], b"\xff\x03" + s))
